@@ -1,5 +1,5 @@
 (* C16: evaluation of the models on recorded cases (correspondence check). *)
-From CJ Require Import Common.Base C16.Model.
+From CJ Require Import Common.Base C16.Model C16.Concrete.
 
 Definition oerr_eqb (a b : option N) : bool := option_eqb N.eqb a b.
 
@@ -176,7 +176,9 @@ Inductive case :=
 | CWd (hbs : list nat) (closed_tick : N)
 | CReg (nsec : nat) (asecl : list N) (areal : list bool) (csecl : list N) (ops : list (N * nat))
        (obs : list regobs) (ares_obs apc_obs : list N)
-| CMat (sh sc : bytes) (hello : bytes) (cd cserial : N) (ccn : bytes) (sd sserial : N) (scn : bytes).
+| CMat (sh sc : bytes) (hello : bytes) (cd cserial : N) (ccn : bytes) (sd sserial : N) (scn : bytes)
+(* from the secret alone, through the concrete SHA-256 / HMAC / HKDF of coq/C14 *)
+| CMatS (secret : bytes) (hello : bytes) (cd cserial : N) (ccn : bytes) (sd sserial : N) (scn : bytes).
 
 Definition chk (c : case) : bool :=
   match c with
@@ -201,6 +203,12 @@ Definition chk (c : case) : bool :=
       let h := mat_hkdf sh sc in
       bytes_eqb (hello_random h []) hello &&
       match certs_from_seed h [] with
+      | Some (c1, c2) => cm_eqb c1 cd cserial ccn && cm_eqb c2 sd sserial scn
+      | None => false
+      end
+  | CMatS secret hello cd cserial ccn sd sserial scn =>
+      bytes_eqb (hello_random_conc secret) hello &&
+      match certs_from_seed_conc secret with
       | Some (c1, c2) => cm_eqb c1 cd cserial ccn && cm_eqb c2 sd sserial scn
       | None => false
       end
